@@ -449,6 +449,48 @@ fn parse(out: &[u8]) -> Result<Parsed, String> {
 }
 
 
+/// PDU order of a response, for messages: `type:length` per PDU.
+fn pdu_order(b: &[u8]) -> String {
+    match split(b) {
+        Ok(p) => { let v: Vec<String> = p.iter().map(|x| format!("{}:{}", x.ty, x.end - x.start)).collect();
+                   if v.len() <= 24 { v.join(" ") } else { format!("{} .. {} ({} PDUs)", v[..12].join(" "), v[v.len() - 6..].join(" "), v.len()) } }
+        Err(e) => format!("<{e}>"),
+    }
+}
+
+/// Compares a transcript (no notifies expected) with the model's prediction.
+fn check_against_model(obs: &Obs, expect: &[Expect], complete: bool) -> Result<(), String> {
+    if obs.conn_panicked { return Err("connection task panicked".into()) }
+    if obs.livelock || obs.spin || obs.flood { return Err("livelock/spin/flood guard tripped".into()) }
+    if !obs.conn_ended { return Err("connection still open after the client closed (hang)".into()) }
+    let p = parse(&obs.out)?;
+    if !p.complaints.is_empty() { return Err(p.complaints.join("; ")) }
+    if p.notifies != 0 { return Err("Serial Notify without a notify event".into()) }
+    if !p.notify_bad.is_empty() { return Err(p.notify_bad.join("; ")) }
+    for (i, e) in expect.iter().enumerate() {
+        let Some(&(ty, s, e2)) = p.units.get(i) else {
+            return Err(format!("query {} got no response: {} units for {} predicted; transcript {}", i + 1, p.units.len(), expect.len(), rpki_verif::trunc(&hex(&obs.out), 200)))
+        };
+        match e {
+            Expect::Exact(want) => if &p.stripped[s..e2] != want.as_slice() {
+                let got = &p.stripped[s..e2];
+                let d = got.iter().zip(want.iter()).position(|(a, b)| a != b).unwrap_or(got.len().min(want.len()));
+                return Err(format!("response {} differs from the model at octet {d} ({} octets, {} expected); PDU order (type:length) is [{}], expected [{}]; octets from there: {} expected {}",
+                    i + 1, got.len(), want.len(), pdu_order(got), pdu_order(want),
+                    hex(&got[d..got.len().min(d + 24)]), hex(&want[d..want.len().min(d + 24)])))
+            },
+            Expect::ErrorPdu => if ty != T_ERROR {
+                return Err(format!("response {} has type {ty}, an Error PDU was due", i + 1))
+            },
+        }
+    }
+    if complete && p.units.len() != expect.len() {
+        return Err(format!("{} response units for {} queries", p.units.len(), expect.len()))
+    }
+    Ok(())
+}
+
+
 //------------ executing one schedule ----------------------------------------
 
 #[derive(Clone, Debug, PartialEq, Eq)]
@@ -663,32 +705,7 @@ fn main() {
         let lens: Vec<usize> = st.bounds.windows(2).map(|w| w[1] - w[0]).collect();
         let (expect, _, complete) = model(&st.qs, &lens, &base);
         if expect.iter().any(|e| matches!(e, Expect::Exact(_))) { sp.nontrivial(1) }
-        ctx.check("C08.ref.model", wit, || {
-            if obs.conn_panicked { return Err("connection task panicked".into()) }
-            if obs.livelock || obs.spin || obs.flood { return Err("livelock/spin/flood guard tripped".into()) }
-            if !obs.conn_ended { return Err("connection still open after the client closed (hang)".into()) }
-            let p = parse(&obs.out)?;
-            if !p.complaints.is_empty() { return Err(p.complaints.join("; ")) }
-            if p.notifies != 0 { return Err("Serial Notify without a notify event".into()) }
-            if !p.notify_bad.is_empty() { return Err(p.notify_bad.join("; ")) }
-            for (i, e) in expect.iter().enumerate() {
-                let Some(&(ty, s, e2)) = p.units.get(i) else {
-                    return Err(format!("query {} got no response: {} units for {} predicted; transcript {}", i + 1, p.units.len(), expect.len(), hex(&obs.out)))
-                };
-                match e {
-                    Expect::Exact(want) => if &p.stripped[s..e2] != want.as_slice() {
-                        return Err(format!("response {} is {} expected {}", i + 1, hex(&p.stripped[s..e2]), hex(want)))
-                    },
-                    Expect::ErrorPdu => if ty != T_ERROR {
-                        return Err(format!("response {} has type {ty}, an Error PDU was due", i + 1))
-                    },
-                }
-            }
-            if complete && p.units.len() != expect.len() {
-                return Err(format!("{} response units for {} queries", p.units.len(), expect.len()))
-            }
-            Ok(())
-        });
+        ctx.check("C08.ref.model", wit, || check_against_model(&obs, &expect, complete));
         // the answers must be on the wire at quiescence, before the client closes
         ctx.check("C08.ref.prompt", wit, || {
             let p = parse(&obs.out)?;
@@ -712,6 +729,93 @@ fn main() {
     sp.sample_str(|| { let i = streams.len() - 1; format!("stream={} -> {}", streams[i].names, hex(&refs[i].out)) });
     sp.states(streams.len() as u64); sp.transitions(2 * streams.len() as u64); sp.traces(streams.len() as u64);
     sp.done(true, &format!("all {} sequences of <= {} PDUs", streams.len(), max_pdus));
+
+    //--- (1b) sizes and counts of the served data --------------------------------
+    let sp = ctx.space("data.sizes",
+        "payload sources with (i) one large item (ASPA with 1021/1022/1023/2044/16380 providers, router key with 4063/4064/4065 octets of key info; thorough: also 4095..4097 providers and 65535..65537 octets) before / between / after the four small items, (ii) n IPv4 origins for every n in 0..=40 and around 128, 204 (4096/20), 256 (thorough: 512, 1024, 4096), n IPv6 origins around 128 (4096/32), (iii) n origins followed by a 1022-provider ASPA and one more origin; each queried with reset v0/v1/v2, serial v1/v2 (retained diff) and reset+serial on one connection, delivered in one piece / with a 1-octet first write / 7-octet writes / the response held back after 4096 octets; response PDU order and octets compared with the model; non-trivial = responses longer than 4096 octets (measured)");
+    {
+        let small = full_items();
+        let big_aspa = |n: usize| Item::Aspa { customer: 70000, providers: (0..n as u32).map(|i| 0x0100_0000 + i).collect() };
+        let big_key = |n: usize| Item::Key { ski: [0x5A; 20], asn: 70001, info: (0..n).map(|i| (i * 7) as u8).collect() };
+        let origin = |i: usize| Item::V4 { addr: [10, (i >> 8) as u8, i as u8, 0], len: 24, max: 24, asn: 64512 + i as u32 };
+        let origin6 = |i: usize| { let mut a = [0u8; 16]; a[0] = 0x20; a[1] = 0x01; a[4] = (i >> 8) as u8; a[5] = i as u8; Item::V6 { addr: a, len: 48, max: 64, asn: 64512 + i as u32 } };
+        let with_diff = |name: String, full: Vec<Item>| -> Data {
+            // the retained diff announces the same items in the same order, withdrawing every third
+            let diff = full.iter().enumerate().map(|(i, it)| (it.clone(), i % 3 != 1)).collect();
+            Data { name, full, diff }
+        };
+        let mut configs: Vec<Data> = Vec::new();
+        let mut bigs: Vec<(String, Item)> = Vec::new();
+        for n in [1021usize, 1022, 1023, 2044, 16380] { bigs.push((format!("aspa{n}"), big_aspa(n))) }
+        for n in [4063usize, 4064, 4065] { bigs.push((format!("key{n}"), big_key(n))) }
+        if ctx.tier.is_thorough() {
+            for n in [4095usize, 4096, 4097, 8191, 8192, 8193] { bigs.push((format!("aspa{n}"), big_aspa(n))) }
+            for n in [65535usize, 65536, 65537] { bigs.push((format!("key{n}"), big_key(n))) }
+        }
+        for (bn, b) in &bigs { for pos in [0usize, 2, 4] {
+            let mut full = small.clone(); full.insert(pos, b.clone());
+            configs.push(with_diff(format!("{bn}@{pos}"), full));
+        } }
+        let mut counts: Vec<usize> = (0..=40).collect();
+        counts.extend([127, 128, 129, 203, 204, 205, 206, 255, 256, 257]);
+        if ctx.tier.is_thorough() { counts.extend([511, 512, 513, 1023, 1024, 1025, 4095, 4096, 4097]) }
+        for &n in &counts { configs.push(with_diff(format!("origins4x{n}"), (0..n).map(origin).collect())) }
+        for n in [127usize, 128, 129] { configs.push(with_diff(format!("origins6x{n}"), (0..n).map(origin6).collect())) }
+        for n in [1usize, 40, 204, 205] {
+            let mut full: Vec<Item> = (0..n).map(origin).collect(); full.push(big_aspa(1022)); full.push(origin(n));
+            configs.push(with_diff(format!("origins4x{n}+aspa1022+1"), full));
+        }
+        let q = |name: &'static str, bytes: Vec<u8>, q: Q| (name, bytes, q);
+        let syms = [
+            q("reset0", hdr(0, 2, 0, 8), Q::Reset(0)), q("reset1", hdr(1, 2, 0, 8), Q::Reset(1)), q("reset2", hdr(2, 2, 0, 8), Q::Reset(2)),
+            q("serial1.diff", serial_query(1, SERIAL - 1), Q::Serial(1, SERIAL - 1)), q("serial2.diff", serial_query(2, SERIAL - 1), Q::Serial(2, SERIAL - 1)),
+        ];
+        let seqs: Vec<Vec<usize>> = vec![vec![0], vec![1], vec![2], vec![3], vec![4], vec![1, 3], vec![4, 2]];
+        struct Out { evals: u64, nontrivial: u64, oc: BTreeMap<&'static str, u64>, fails: Vec<(&'static str, String, String)> }
+        let outs: Vec<Out> = configs.par_iter().map(|data| {
+            let mut o = Out { evals: 0, nontrivial: 0, oc: BTreeMap::new(), fails: vec![] };
+            let src = match guard(|| Src::new(data)) {
+                Ok(s) => s,
+                Err(p) => { o.evals += 1; o.fails.push(("C08.data.order_and_octets", format!("data={}", data.name), format!("constructing the items panics: {p}"))); return o }
+            };
+            for seq in &seqs {
+                let names = seq.iter().map(|i| syms[*i].0).collect::<Vec<_>>().join(",");
+                let bytes: Vec<u8> = seq.iter().flat_map(|i| syms[*i].1.iter().copied()).collect();
+                let qs: Vec<Q> = seq.iter().map(|i| syms[*i].2).collect();
+                let lens: Vec<usize> = seq.iter().map(|i| syms[*i].1.len()).collect();
+                let (expect, due, complete) = model(&qs, &lens, data);
+                let l = bytes.len();
+                let scripts: [Vec<Ev>; 4] = [
+                    vec![Ev::Deliver(l), Ev::Settle, Ev::Close, Ev::Settle],
+                    vec![Ev::ShortWrite(1), Ev::Deliver(l), Ev::Settle, Ev::Close, Ev::Settle],
+                    vec![Ev::WriteChunk(7), Ev::Deliver(l), Ev::Settle, Ev::Close, Ev::Settle],
+                    vec![Ev::WriteBudget(4096), Ev::Deliver(l), Ev::Settle, Ev::Unblock, Ev::Settle, Ev::Close, Ev::Settle],
+                ];
+                for script in &scripts {
+                    let wit = || format!("data={} stream={names} sched={}", data.name, render_script(script));
+                    if let Some((_, w)) = &ctx.replay { if *w != wit() { continue } }
+                    o.evals += 1;
+                    let obs = match guard(|| execute(&src, &bytes, script)) { Ok(x) => x, Err(p) => { o.fails.push(("C08.data.order_and_octets", wit(), format!("driver panicked: {p}"))); continue } };
+                    if obs.out.len() > 4096 { o.nontrivial += 1 }
+                    let mut ok = true;
+                    if let Err(d) = check_against_model(&obs, &expect, complete) { o.fails.push(("C08.data.order_and_octets", wit(), d)); ok = false }
+                    if let Ok(p) = parse(&obs.out) {
+                        if let Some(d) = prompt_check(script, &obs.marks, &due, &p.unit_raw_end) { o.fails.push(("C08.data.prompt", wit(), d)); ok = false }
+                    }
+                    *o.oc.entry(if !ok { "violation" } else if obs.out.len() > 4096 { "as-modelled:more-than-4096-octets" } else { "as-modelled:up-to-4096-octets" }).or_insert(0) += 1;
+                }
+            }
+            o
+        }).collect();
+        for o in outs {
+            sp.evals(o.evals); sp.nontrivial(o.nontrivial); sp.merge_outcomes(&o.oc);
+            sp.states(o.evals); sp.traces(o.evals); sp.transitions(3 * o.evals);
+            for (oracle, w, d) in o.fails { ctx.fail(oracle, w, d) }
+        }
+        sp.set("configurations", serde_json::json!(configs.iter().map(|c| c.name.clone()).collect::<Vec<_>>()));
+        sp.sample_str(|| format!("data={}: items {:?}", configs[3].name, configs[3].full.iter().map(|i| i.wire(2, true).len()).collect::<Vec<_>>()));
+        sp.done(true, &format!("{} data sets x 7 query sequences x 4 write schedules", configs.len()));
+    }
 
     //--- (2) schedules -------------------------------------------------------
     let sp = ctx.space("schedules",
